@@ -270,10 +270,21 @@ func driveHelpers(t *Tracer, r Rng, n int) {
 				a = []int64{a[0] * m, a[1] * m, a[2] * m}
 				b = append([]int64(nil), a...)
 				b[r.Intn(3)] += r.Pick(1, 7, 50, 300, 2000, 5000, 20000, r.In(1, 30000))
+				if r.Chance(0.4) {
+					// almost opposite instead: pi minus 1e-9 .. 5e-7 rad (a return leg a hair off the exact reverse); the
+					// library treats these as opposite, which is accurate to the deviation itself - inside the 1e-6 asked
+					n2 := math.Sqrt(float64(a[0]*a[0] + a[1]*a[1] + a[2]*a[2]))
+					k := int64(1)
+					if lim := int64(5e-7 * n2); lim > 1 {
+						k = r.In(1, lim)
+					}
+					b = []int64{-a[0], -a[1], -a[2]}
+					b[r.Intn(3)] += k
+				}
 			}
-			// stay away from the ill-conditioned almost-opposite zone unless exactly opposite
+			// stay away from the ill-conditioned almost-opposite zone unless opposite to within 5e-7 rad
 			ua, ub := v3(a).Unit(), v3(b).Unit()
-			if c := ua.Dot(ub); c < -0.98 && ua.Cross(ub).Norm() > 1e-9 {
+			if c := ua.Dot(ub); c < -0.98 && ua.Cross(ub).Norm() > 6e-7 {
 				continue
 			}
 			evQuat(t, a, b)
